@@ -67,7 +67,7 @@ def gen_inputs(key, r):
     if base in ('distance_wei', 'distance_wei:edges'):
         A = _dir(r, n, p=float(r.choice([.2, .4, .7]))) if r.random_sample() < .6 else _und(r, n, p=float(r.choice([.3, .6])))
         return dict(G=np.abs(A))
-    if base == 'distance_wei_floyd:inv':
+    if base in ('distance_wei_floyd:inv', 'distance_wei_floyd:paths:inv'):
         A = _dir(r, n, p=float(r.choice([.2, .4, .7]))) if r.random_sample() < .6 else _und(r, n, p=float(r.choice([.3, .6])))
         return dict(adjacency=np.abs(A), transform='inv')
     if base == 'clustering_coef_bu':
